@@ -17,6 +17,9 @@ import (
 type trCont func() (string, error)
 
 func (c *trCtx) dropped(call *ast.CallExpr) bool {
+	if c.effectOf(call) != nil {
+		return false
+	}
 	if isLogCall(c.fset, call) {
 		return true
 	}
@@ -67,6 +70,7 @@ func (c *trCtx) onlyEffects(list []ast.Stmt) bool {
 }
 
 func (c *trCtx) declare(name string, t trTy, define bool) error {
+	c.noteAssigned(name)
 	if define {
 		if d, ok := c.depth[name]; ok && d < c.cur {
 			return trErr("`%s :=` in a nested block shadows an outer variable", name)
@@ -95,6 +99,13 @@ func (c *trCtx) block(list []ast.Stmt, k trCont) (string, error) {
 	for n, d := range c.depth {
 		savedDepth[n] = d
 	}
+	// assignment counts are per path: what follows the block is translated inside its continuation; the
+	// code translated after block() returns belongs to another branch
+	savedCount := map[string]int{}
+	for n, k := range c.assignCount {
+		savedCount[n] = k
+	}
+	defer func() { c.assignCount = savedCount }()
 	c.cur++
 	inner := c.cur
 	s, err := c.stmts(list, func() (string, error) {
@@ -120,16 +131,37 @@ func (c *trCtx) stmts(list []ast.Stmt, k trCont) (string, error) {
 		return k()
 	}
 	rest := func() (string, error) { return c.stmts(list[1:], k) }
+	if c.droppedStmt(list[0]) {
+		return rest()
+	}
 	switch x := list[0].(type) {
 	case *ast.EmptyStmt:
 		return rest()
 	case *ast.ReturnStmt:
 		return c.ret(x)
+	case *ast.BranchStmt:
+		if x.Tok == token.BREAK && x.Label == nil && c.loopBreak != nil {
+			return c.loopBreak()
+		}
+		return "", trErr("%s is outside the subset here", x.Tok)
 	case *ast.BlockStmt:
 		return c.block(x.List, rest)
 	case *ast.ExprStmt:
 		if call, ok := x.X.(*ast.CallExpr); ok && c.dropped(call) {
 			return rest()
+		}
+		if call, ok := x.X.(*ast.CallExpr); ok {
+			if eff := c.effectOf(call); eff != nil {
+				app, err := c.appendEffect(eff, call)
+				if err != nil {
+					return "", err
+				}
+				r, err := rest()
+				if err != nil {
+					return "", err
+				}
+				return fmt.Sprintf("(let %s := %s; %s)", traceVar, app, r), nil
+			}
 		}
 		return "", trErr("statement %s has an effect that is not in the ignore list", exprText(c.fset, x))
 	case *ast.IncDecStmt:
@@ -137,6 +169,7 @@ func (c *trCtx) stmts(list []ast.Stmt, k trCont) (string, error) {
 		if !ok || c.vars[id.Name] != tyInt {
 			return "", trErr("%s", exprText(c.fset, x))
 		}
+		c.noteAssigned(id.Name)
 		op := "+"
 		if x.Tok == token.DEC {
 			op = "-"
@@ -177,10 +210,17 @@ func (c *trCtx) stmts(list []ast.Stmt, k trCont) (string, error) {
 		}
 		return out + r + strings.Repeat(")", closers), nil
 	case *ast.AssignStmt:
+		if s, done, err := c.effectAssign(x, rest); done {
+			return s, err
+		}
 		if len(x.Lhs) != 1 || len(x.Rhs) != 1 {
 			return "", trErr("multiple assignment %s", exprText(c.fset, x))
 		}
 		id, ok := x.Lhs[0].(*ast.Ident)
+		if sp := c.stateParam(x.Lhs[0]); sp != nil && x.Tok != token.DEFINE {
+			// a receiver field the target declares as state: a variable of the term
+			id, ok = &ast.Ident{Name: sp.lean}, true
+		}
 		if !ok {
 			return "", trErr("assignment to %s", exprText(c.fset, x.Lhs[0]))
 		}
@@ -274,6 +314,12 @@ func (c *trCtx) ret(x *ast.ReturnStmt) (string, error) {
 	if c.t.from != "" {
 		return "", trErr("return inside a fragment")
 	}
+	if c.t.void {
+		if len(x.Results) != 0 || c.loopRet != nil {
+			return "", trErr("return in a function declared void")
+		}
+		return c.voidTuple()
+	}
 	if len(x.Results) == 0 {
 		return "", trErr("return without a value")
 	}
@@ -297,6 +343,12 @@ func (c *trCtx) ret(x *ast.ReturnStmt) (string, error) {
 	if len(parts) > 1 {
 		val = "(" + strings.Join(parts, ", ") + ")"
 	}
+	if c.t.traceTy != "" {
+		if c.loopRet != nil {
+			return "", trErr("return from inside a loop in a target with a trace")
+		}
+		val = "(" + traceVar + ", " + val + ")"
+	}
 	if c.loopRet != nil {
 		return c.loopRet(val), nil
 	}
@@ -316,6 +368,9 @@ func (c *trCtx) errValue(e ast.Expr) (string, error) {
 				return "(some " + strconv.Quote(s) + ")", nil
 			}
 		}
+	}
+	if s, ok := c.errComposite(e); ok {
+		return s, nil
 	}
 	return "", trErr("error value %s is outside the subset", exprText(c.fset, e))
 }
@@ -344,6 +399,9 @@ func (c *trCtx) joined(vs []string, stmt func(k trCont) (string, error), rest tr
 	val, err := stmt(func() (string, error) { return tuple, nil })
 	if err != nil {
 		return "", err
+	}
+	for _, v := range vs {
+		c.noteAssigned(v) // assigned inside the joined statement (whose own counts were per branch)
 	}
 	r, err := rest()
 	if err != nil {
@@ -461,13 +519,21 @@ func (c *trCtx) assigned(list []ast.Stmt) ([]string, error) {
 				bad = trErr("return inside a loop")
 			}
 		case *ast.BranchStmt:
-			bad = trErr("%s inside a loop", x.Tok)
+			if !(c.allowBreak && x.Tok == token.BREAK && x.Label == nil) {
+				bad = trErr("%s inside a loop", x.Tok)
+			}
+		case *ast.CallExpr:
+			if c.effectOf(x) != nil {
+				set[traceVar] = true
+			}
 		case *ast.AssignStmt:
 			for _, l := range x.Lhs {
 				if id, ok := l.(*ast.Ident); ok {
-					if _, outer := c.vars[id.Name]; outer && x.Tok != token.DEFINE {
+					if t, outer := c.vars[id.Name]; outer && x.Tok != token.DEFINE && t != tyOpaque {
 						set[id.Name] = true
 					}
+				} else if sp := c.stateParam(l); sp != nil {
+					set[sp.lean] = true
 				}
 			}
 		case *ast.IncDecStmt:
@@ -505,6 +571,22 @@ type loopSpec struct {
 func (c *trCtx) rangeStmt(x *ast.RangeStmt, rest trCont) (string, error) {
 	if x.Tok != token.DEFINE {
 		return "", trErr("range without :=")
+	}
+	if p := c.param(exprText(c.fset, x.X)); p != nil && p.ty == tyRecList {
+		// `for _, r := range <list of records>`: the element is the tuple of the fields the target lists
+		if id, ok := x.Key.(*ast.Ident); x.Key != nil && (!ok || id.Name != "_") {
+			return "", trErr("range over a list of records with an index")
+		}
+		val, ok := x.Value.(*ast.Ident)
+		if !ok || val.Name == "_" {
+			return "", trErr("range over a list of records without an element variable")
+		}
+		if c.recOf == nil {
+			c.recOf = map[string]*trParam{}
+		}
+		c.recOf[val.Name] = p
+		defer delete(c.recOf, val.Name)
+		return c.loop(loopSpec{list: p.lean, body: x.Body.List, vars: []loopVar{{val.Name, "x_", tyRec}}}, rest)
 	}
 	s, st, err := c.expr(x.X, tyStr)
 	if err != nil {
@@ -624,11 +706,17 @@ func (c *trCtx) forStmt(x *ast.ForStmt, rest trCont) (string, error) {
 // `List.foldl (fun st x => st.or (body x)) none list` and `Option.getD … rest`.
 func (c *trCtx) loop(sp loopSpec, rest trCont) (string, error) {
 	withRet := hasReturn(&ast.BlockStmt{List: sp.body})
+	brk := hasBreak(sp.body)
 	c.allowLoopReturn = withRet
+	c.allowBreak = brk
 	state, err := c.assigned(sp.body)
 	c.allowLoopReturn = false
+	c.allowBreak = false
 	if err != nil {
 		return "", err
+	}
+	if brk && (withRet || c.loopBreak != nil) {
+		return "", trErr("loop with break and return / nested loops with break")
 	}
 	// the loop's own variables are not state
 	var st2 []string
@@ -656,6 +744,14 @@ func (c *trCtx) loop(sp loopSpec, rest trCont) (string, error) {
 		}
 	} else if len(state) == 0 {
 		return "", trErr("loop without effect on a local variable")
+	}
+	if brk {
+		// `break`: a flag in the state; once it is set the remaining elements leave the state unchanged
+		if _, clash := c.vars["brk_"]; clash {
+			return "", trErr("variable brk_ clashes with the break flag")
+		}
+		state = append(state, "brk_")
+		c.vars["brk_"], c.depth["brk_"] = tyBool, c.cur
 	}
 	tuple := func() string {
 		var ns []string
@@ -707,16 +803,37 @@ func (c *trCtx) loop(sp loopSpec, rest trCont) (string, error) {
 		body, err = c.block(sp.body, func() (string, error) { return none, nil })
 		c.loopRet = nil
 	} else {
+		if brk {
+			c.loopBreak = func() (string, error) { return "(let brk_ := true; " + tuple() + ")", nil }
+		}
 		body, err = c.block(sp.body, func() (string, error) { return tuple(), nil })
+		c.loopBreak = nil
+		if brk && err == nil {
+			body = fmt.Sprintf("(if brk_ then %s else %s)", tuple(), body)
+		}
 	}
 	c.cur--
 	c.vars, c.depth = savedVars, savedDepth
+	if brk {
+		delete(c.vars, "brk_")
+		delete(c.depth, "brk_")
+	}
 	if err != nil {
 		return "", err
+	}
+	for _, v := range state {
+		c.noteAssigned(v) // assigned by the loop body
 	}
 	r, err := rest()
 	if err != nil {
 		return "", err
+	}
+	if brk {
+		r0, err := c.loopTail(sp, state, unpack, pre, body, closers, tuple(), r)
+		if err != nil {
+			return "", err
+		}
+		return "(let brk_ := false; " + r0 + ")", nil
 	}
 	if withRet {
 		// `Option.or st (body)`: once the function has returned (`some`) nothing changes; `Option.getD`:
@@ -725,7 +842,12 @@ func (c *trCtx) loop(sp loopSpec, rest trCont) (string, error) {
 		fold := fmt.Sprintf("(List.foldl (fun st_ x_ => (Option.or st_ %s%s%s)) %s %s)", pre, body, strings.Repeat(")", closers), none, sp.list)
 		return fmt.Sprintf("(Option.getD %s %s)", fold, r), nil
 	}
-	fold := fmt.Sprintf("(List.foldl (fun st_ x_ => %s%s%s%s) %s %s)", unpack, pre, body, strings.Repeat(")", closers), tuple(), sp.list)
+	return c.loopTail(sp, state, unpack, pre, body, closers, tuple(), r)
+}
+
+// loopTail: the fold over the state tuple and the rest of the function after it
+func (c *trCtx) loopTail(sp loopSpec, state []string, unpack, pre, body string, closers int, tuple, r string) (string, error) {
+	fold := fmt.Sprintf("(List.foldl (fun st_ x_ => %s%s%s%s) %s %s)", unpack, pre, body, strings.Repeat(")", closers), tuple, sp.list)
 	if len(state) == 1 {
 		return fmt.Sprintf("(let %s := %s; %s)", leanIdent(state[0]), fold, r), nil
 	}
@@ -747,7 +869,8 @@ func (c *trCtx) loop(sp loopSpec, rest trCont) (string, error) {
 // goTypeOf: Go type text → translator type and Lean zero value
 func goTypeOf(t string, c *trCtx) (trTy, string) {
 	switch t {
-	case "int", "int64", "int32", "int16", "int8", "uint", "uint64", "uint32", "rune":
+	case "int", "int64", "int32", "rune":
+		// (unsigned types are refused: Int does not wrap around at 0)
 		return tyInt, "(0 : Int)"
 	case "byte", "uint8":
 		return tyByte, "(0 : UInt8)"
@@ -869,10 +992,19 @@ func translateTarget(repo string, t *trTarget) (string, interface{}, error) {
 			if id := p.goText; isGoIdent(id) {
 				c.vars[id], c.depth[id] = p.ty, 0
 			}
+			if p.isState {
+				c.vars[p.lean], c.depth[p.lean] = p.ty, 0
+			}
 		}
+	}
+	if t.traceTy != "" {
+		c.vars[traceVar], c.depth[traceVar] = tyTrace, 0
 	}
 	list := fd.Body.List
 	k := func() (string, error) { return "", trErr("control reaches the end of %s without a return", t.fn) }
+	if t.void {
+		k = c.voidTuple
+	}
 	if t.from != "" {
 		list = findFragment(fset, fd.Body, t.from, t.to)
 		if list == nil {
@@ -895,6 +1027,9 @@ func translateTarget(repo string, t *trTarget) (string, interface{}, error) {
 	body, err := c.stmts(list, k)
 	if err != nil {
 		return "", nil, err
+	}
+	if t.traceTy != "" {
+		body = fmt.Sprintf("(let %s := ([] : %s); %s)", traceVar, c.traceLeanTy(), body)
 	}
 	term := ""
 	if t.recFuel {
